@@ -1,7 +1,7 @@
 (* C10/Trace.v — the dispatcher over proved step cases and the induction over the history. *)
 From Coq Require Import List NArith ZArith Bool Lia.
 Import ListNotations.
-Require Import Base.Wire Base.PyStr C10.Model C10.Lemmas C10.Handlers C10.SrvLemmas C10.Feed C10.Inv C10.Frame C10.Sim C10.Agree C10.Step C10.Step2 C10.StepMode C10.Step3 C10.Step4 C10.Step5 C10.Step6 C10.Step7 C10.Keys C10.Step8 C10.Step9 C10.Step10.
+Require Import Base.Wire Base.PyStr C10.Model C10.Lemmas C10.Handlers C10.SrvLemmas C10.Feed C10.Inv C10.Frame C10.Sim C10.Agree C10.Step C10.Step2 C10.StepMode C10.Step3 C10.Step4 C10.Step5 C10.Step6 C10.Step7 C10.Keys C10.Step8 C10.Step9 C10.Step10 C10.StepLate.
 Open Scope N_scope.
 
 Section Trace.
@@ -29,6 +29,7 @@ Proof.
   - apply step_who. exact I.
   - apply step_reset; assumption.
   - apply step_isupport. exact I.
+  - apply step_late. exact I.
 Qed.
 Lemma trace_inv : forall acts s b, Inv s b -> skeys s -> dom acts = true ->
   all_agree nick0 prefix0 true uh s b acts = true.
